@@ -414,6 +414,9 @@ func parse_regexp_groups(regexp_token *Token, regexp string, index int) (AstLite
 		return nil, index, NewParseError(regexp_token, "Invalid marker for group")
 	}
 
+	// groups are numbered by their opening parenthesis: take the number before the body is parsed
+	capture_group_number += 1
+	group_number := capture_group_number
 	subexpr, next_index, err := parse_regexp_disjunction(regexp_token, regexp, index)
 	if err != nil {
 		return nil, next_index, err
@@ -421,6 +424,5 @@ func parse_regexp_groups(regexp_token *Token, regexp string, index int) (AstLite
 	if regexp[next_index] != ')' {
 		return nil, next_index, NewParseError(regexp_token, "Expected end parenthesis")
 	}
-	capture_group_number += 1
-	return &AstSubExpr{[]AstExpression{&AstDec{fmt.Sprintf("_%d", capture_group_number), &AstSubExpr{subexpr}}}}, next_index + 1, nil
+	return &AstSubExpr{[]AstExpression{&AstDec{fmt.Sprintf("_%d", group_number), &AstSubExpr{subexpr}}}}, next_index + 1, nil
 }
